@@ -14,6 +14,8 @@ import Fbr.Lemmas.VfsInv
 import Fbr.Lemmas.VfsMap
 import Fbr.Lemmas.VfsRoute
 import Fbr.Lemmas.VfsNoPanic
+import Fbr.Gen.VfsSync
+import Fbr.Gen.VfsMod
 
 namespace Fbr.Thm.C14
 open Fbr.Vfs Fbr.Persist Fbr.Lemmas.VfsInv Fbr.Lemmas.VfsMap Fbr.Lemmas.VfsRoute Fbr.Lemmas.VfsNoPanic
@@ -307,6 +309,33 @@ theorem pseudo_dir_owner_counterexample :
   refine ⟨(State.new { Opts.default with idMapping := (0, 1000, 65536) } false |>.mount
       { id := 1, mountErr := none, rootIno := 1, rootUid := 5, rootGid := 6, maxIno := 100, ie := 0 } [47, 97, 47, 98] none).1,
     1, [97], { inode := 2, stIno := 2, uid := 1000, gid := 1000 }, 0, 0, ?_, ?_, ?_⟩ <;> decide
+
+/-! ### source structure (generated tables) -/
+
+def callsOf (tbl : List (String × String × String × String × List (String × List String) × List String)) (fn : String) : List String :=
+  match tbl.find? (fun f => f.2.2.1 == fn) with
+  | some f => f.2.2.2.2.2
+  | none => []
+
+/-- the translation call sites the model assumes are the ones in the source today: GETATTR and
+    SETATTR convert the reply (`convert_attr`), SETATTR translates the owner first
+    (`remap_attr_id`), the entry operations go through `convert_backend_entry`, READDIRPLUS
+    translates each entry (`remap_attr_id`), `id_remap_with_nodeid` translates the context with the
+    effective mapping, and `lookup_pseudo` calls `convert_entry` exactly once (the non-crossing
+    branch; the crossing branch returns the stored root entry) -/
+theorem translation_call_sites_match_source :
+    "self.convert_attr" ∈ callsOf Fbr.Gen.vfsSyncFns "getattr" ∧
+    "self.convert_attr" ∈ callsOf Fbr.Gen.vfsSyncFns "setattr" ∧
+    "self.remap_attr_id" ∈ callsOf Fbr.Gen.vfsSyncFns "setattr" ∧
+    "self.remap_attr_id" ∈ callsOf Fbr.Gen.vfsSyncFns "readdirplus" ∧
+    (∀ fn ∈ ["lookup", "symlink", "mknod", "mkdir", "link", "create"],
+        "self.convert_backend_entry" ∈ callsOf Fbr.Gen.vfsSyncFns fn) ∧
+    "self.remap_ctx_ids" ∈ callsOf Fbr.Gen.vfsSyncFns "id_remap_with_nodeid" ∧
+    "self.get_effective_id_mapping" ∈ callsOf Fbr.Gen.vfsSyncFns "id_remap_with_nodeid" ∧
+    ((callsOf Fbr.Gen.vfsModFns "lookup_pseudo").filter (· == "self.convert_entry")).length = 1 ∧
+    "self.get_effective_id_mapping" ∈ callsOf Fbr.Gen.vfsModFns "convert_entry" ∧
+    "self.mount_id_mappings.store" ∈ callsOf Fbr.Gen.vfsModFns "mount_with_id_mapping" := by
+  decide +kernel
 
 /-! ### non-vacuity -/
 
